@@ -34,6 +34,19 @@ pub trait GroupApi: Copy + Send + 'static {
     fn set_cond(d: &mut Self, a: &Self, ctl: u32);
     fn select(a0: &Self, a1: &Self, ctl: u32) -> Self;
     fn set_condneg(d: &mut Self, ctl: u32) -> bool;
+    /// structure tests of the plain Edwards curves
+    fn has_low_order(_a: Self) -> Option<u32> { None }
+    fn is_in_subgroup(_a: Self) -> Option<u32> { None }
+    /// (affine u, projective X, projective Z) of the Montgomery map, encoded
+    fn mont_u(_a: Self) -> Option<(Vec<u8>, Vec<u8>, Vec<u8>)> { None }
+    /// coordinate access of the Weierstrass curves (field elements as 32 little-endian bytes)
+    fn to_affine(_a: Self) -> Option<(Vec<u8>, Vec<u8>, u32)> { None }
+    fn to_projective(_a: Self) -> Option<(Vec<u8>, Vec<u8>, Vec<u8>)> { None }
+    fn from_affine(_x: &[u8], _y: &[u8]) -> Option<Option<Self>> { None }
+    fn from_projective(_x: &[u8], _y: &[u8], _z: &[u8]) -> Option<Option<Self>> { None }
+    fn field_modulus() -> Option<BigUint> { None }
+    /// x-only sequence x(P0 + i*(P1 - P0)), i = 0..n+1 (P-256)
+    fn xseq(_p0: Self, _p1: Self, _n: usize) -> Option<(Vec<Vec<u8>>, Vec<u8>, Vec<u8>)> { None }
     /// well-known encodings worth decoding: low-order points, special coordinates
     fn special_encodings() -> Vec<Vec<u8>>;
     fn enc_len() -> usize;
@@ -127,6 +140,13 @@ impl GroupApi for crrl::ed25519::Point {
     mul_small_std!();
     vh_std!(crrl::ed25519::Scalar);
     fn encode(&self) -> Vec<u8> { crrl::ed25519::Point::encode(*self).to_vec() }
+    fn has_low_order(a: Self) -> Option<u32> { Some(a.has_low_order()) }
+    fn is_in_subgroup(a: Self) -> Option<u32> { Some(a.is_in_subgroup()) }
+    fn mont_u(a: Self) -> Option<(Vec<u8>, Vec<u8>, Vec<u8>)> {
+        let u = a.to_montgomery_u();
+        let (x, z) = a.to_montgomery_u_projective();
+        Some((u.encode().to_vec(), x.encode().to_vec(), z.encode().to_vec()))
+    }
     fn set_condneg(d: &mut Self, ctl: u32) -> bool { d.set_condneg(ctl); true }
     fn enc_len() -> usize { 32 }
     fn special_encodings() -> Vec<Vec<u8>> {
@@ -158,6 +178,12 @@ impl GroupApi for crrl::ed448::Point {
     mul_small_std!();
     vh_std!(crrl::ed448::Scalar);
     fn encode(&self) -> Vec<u8> { crrl::ed448::Point::encode(*self).to_vec() }
+    fn has_low_order(a: Self) -> Option<u32> { Some(a.has_low_order()) }
+    fn is_in_subgroup(a: Self) -> Option<u32> { Some(a.is_in_subgroup()) }
+    fn mont_u(a: Self) -> Option<(Vec<u8>, Vec<u8>, Vec<u8>)> {
+        let u = a.to_montgomery_u();
+        Some((u.encode().to_vec(), Vec::new(), Vec::new()))
+    }
     fn set_condneg(d: &mut Self, ctl: u32) -> bool { d.set_condneg(ctl); true }
     fn enc_len() -> usize { 57 }
     fn special_encodings() -> Vec<Vec<u8>> {
@@ -180,6 +206,27 @@ impl GroupApi for crrl::p256::Point {
     vh_std!(crrl::p256::Scalar);
     fn encode(&self) -> Vec<u8> { self.encode_uncompressed().to_vec() }
     fn encode_c(&self) -> Option<Vec<u8>> { Some(self.encode_compressed().to_vec()) }
+    fn to_affine(a: Self) -> Option<(Vec<u8>, Vec<u8>, u32)> {
+        let (x, y, r) = a.to_affine();
+        Some((x.encode32().to_vec(), y.encode32().to_vec(), r))
+    }
+    fn to_projective(a: Self) -> Option<(Vec<u8>, Vec<u8>, Vec<u8>)> {
+        let (x, y, z) = a.to_projective();
+        Some((x.encode32().to_vec(), y.encode32().to_vec(), z.encode32().to_vec()))
+    }
+    fn from_affine(x: &[u8], y: &[u8]) -> Option<Option<Self>> {
+        Some(<crrl::p256::Point>::from_affine(<crrl::field::GFp256>::decode_reduce(x), <crrl::field::GFp256>::decode_reduce(y)))
+    }
+    fn from_projective(x: &[u8], y: &[u8], z: &[u8]) -> Option<Option<Self>> {
+        Some(<crrl::p256::Point>::from_projective(<crrl::field::GFp256>::decode_reduce(x), <crrl::field::GFp256>::decode_reduce(y), <crrl::field::GFp256>::decode_reduce(z)))
+    }
+    fn field_modulus() -> Option<BigUint> { Some(hexn("ffffffff00000001000000000000000000000000ffffffffffffffffffffffff")) }
+    fn xseq(p0: Self, p1: Self, n: usize) -> Option<(Vec<Vec<u8>>, Vec<u8>, Vec<u8>)> {
+        let (x0, x1, xq) = <crrl::p256::Point>::to_x_affine_diff(p0, p1);
+        let mut xx = vec![<crrl::field::GFp256>::ZERO; n];
+        let (xn, xn1) = <crrl::p256::Point>::x_sequence_vartime(x0, x1, xq, &mut xx);
+        Some((xx.iter().map(|x| x.encode32().to_vec()).collect(), xn.encode32().to_vec(), xn1.encode32().to_vec()))
+    }
     fn set_condneg(d: &mut Self, ctl: u32) -> bool { d.set_condneg(ctl); true }
     fn enc_len() -> usize { 65 }
     fn special_encodings() -> Vec<Vec<u8>> {
@@ -200,6 +247,21 @@ impl GroupApi for crrl::secp256k1::Point {
     vh_std!(crrl::secp256k1::Scalar);
     fn encode(&self) -> Vec<u8> { self.encode_uncompressed().to_vec() }
     fn encode_c(&self) -> Option<Vec<u8>> { Some(self.encode_compressed().to_vec()) }
+    fn to_affine(a: Self) -> Option<(Vec<u8>, Vec<u8>, u32)> {
+        let (x, y, r) = a.to_affine();
+        Some((x.encode32().to_vec(), y.encode32().to_vec(), r))
+    }
+    fn to_projective(a: Self) -> Option<(Vec<u8>, Vec<u8>, Vec<u8>)> {
+        let (x, y, z) = a.to_projective();
+        Some((x.encode32().to_vec(), y.encode32().to_vec(), z.encode32().to_vec()))
+    }
+    fn from_affine(x: &[u8], y: &[u8]) -> Option<Option<Self>> {
+        Some(<crrl::secp256k1::Point>::from_affine(<crrl::field::GFsecp256k1>::decode_reduce(x), <crrl::field::GFsecp256k1>::decode_reduce(y)))
+    }
+    fn from_projective(x: &[u8], y: &[u8], z: &[u8]) -> Option<Option<Self>> {
+        Some(<crrl::secp256k1::Point>::from_projective(<crrl::field::GFsecp256k1>::decode_reduce(x), <crrl::field::GFsecp256k1>::decode_reduce(y), <crrl::field::GFsecp256k1>::decode_reduce(z)))
+    }
+    fn field_modulus() -> Option<BigUint> { Some(hexn("fffffffffffffffffffffffffffffffffffffffffffffffffffffffefffffc2f")) }
     fn set_condneg(d: &mut Self, ctl: u32) -> bool { d.set_condneg(ctl); true }
     fn enc_len() -> usize { 65 }
     fn special_encodings() -> Vec<Vec<u8>> {
@@ -452,6 +514,69 @@ impl<'a, G: GroupApi> Mach<'a, G> {
             Err(m) => e.s("panic", &m),
         };
         self.tr.emit(e);
+    }
+    fn structure(&mut self, a: usize) {
+        let x = self.regs[a];
+        if let Ok(Some(w)) = guarded(move || G::has_low_order(x)) {
+            self.tr.emit(Ev::new("has_low_order").n("a", a as i64).st("st", w));
+        }
+        match guarded(move || G::is_in_subgroup(x)) {
+            Ok(Some(w)) => self.tr.emit(Ev::new("is_in_subgroup").n("a", a as i64).st("st", w)),
+            Ok(None) => {}
+            Err(m) => self.tr.emit(Ev::new("is_in_subgroup").n("a", a as i64).s("panic", &m)),
+        }
+        match guarded(move || G::mont_u(x)) {
+            Ok(Some((u, px, pz))) => self.tr.emit(Ev::new("to_montgomery_u").n("a", a as i64).b("u", &u).b("px", &px).b("pz", &pz)),
+            Ok(None) => {}
+            Err(m) => self.tr.emit(Ev::new("to_montgomery_u").n("a", a as i64).s("panic", &m)),
+        }
+    }
+    fn coords(&mut self, a: usize) -> Option<(Vec<u8>, Vec<u8>, Vec<u8>)> {
+        let x = self.regs[a];
+        match guarded(move || G::to_affine(x)) {
+            Ok(Some((ax, ay, r))) => self.tr.emit(Ev::new("to_affine").n("a", a as i64).b("x", &ax).b("y", &ay).st("r", r)),
+            Ok(None) => return None,
+            Err(m) => self.tr.emit(Ev::new("to_affine").n("a", a as i64).s("panic", &m)),
+        }
+        match guarded(move || G::to_projective(x)) {
+            Ok(Some((px, py, pz))) => {
+                self.tr.emit(Ev::new("to_projective").n("a", a as i64).b("x", &px).b("y", &py).b("z", &pz));
+                Some((px, py, pz))
+            }
+            Ok(None) => None,
+            Err(m) => { self.tr.emit(Ev::new("to_projective").n("a", a as i64).s("panic", &m)); None }
+        }
+    }
+    fn from_affine(&mut self, dst: usize, x: &[u8], y: &[u8]) -> bool {
+        let (xx, yy) = (x.to_vec(), y.to_vec());
+        let e = Ev::new("from_affine").b("x", x).b("y", y);
+        match guarded(move || G::from_affine(&xx, &yy)) {
+            Ok(None) => true,
+            Ok(Some(Some(p))) => self.put(dst, e.t("some", true), Ok(p)),
+            Ok(Some(None)) => { self.tr.emit(e.t("some", false).n("dst", dst as i64)); true }
+            Err(m) => self.put(dst, e, Err(m)),
+        }
+    }
+    fn from_projective(&mut self, dst: usize, x: &[u8], y: &[u8], z: &[u8]) -> bool {
+        let (xx, yy, zz) = (x.to_vec(), y.to_vec(), z.to_vec());
+        let e = Ev::new("from_projective").b("x", x).b("y", y).b("z", z);
+        match guarded(move || G::from_projective(&xx, &yy, &zz)) {
+            Ok(None) => true,
+            Ok(Some(Some(p))) => self.put(dst, e.t("some", true), Ok(p)),
+            Ok(Some(None)) => { self.tr.emit(e.t("some", false).n("dst", dst as i64)); true }
+            Err(m) => self.put(dst, e, Err(m)),
+        }
+    }
+    fn xseq(&mut self, a: usize, b: usize, n: usize) {
+        let (x, y) = (self.regs[a], self.regs[b]);
+        let e = Ev::new("xseq").n("a", a as i64).n("b", b as i64).n("n", n as i64);
+        match crate::out::guarded_timeout(20, move || G::xseq(x, y, n)) {
+            Ok(None) => {}
+            Ok(Some((xs, xn, xn1))) => {
+                self.tr.emit(e.bb("xs", &xs).b("xn", &xn).b("xn1", &xn1));
+            }
+            Err(m) => self.tr.emit(e.s("panic", &m)),
+        }
     }
     fn equals(&mut self, a: usize, b: usize) {
         let (x, y) = (self.regs[a], self.regs[b]);
@@ -953,6 +1078,122 @@ fn coordinate_boundaries<G: GroupApi>() -> Vec<Vec<u8>> {
     out
 }
 
+/// Structure tests and coordinate maps: has_low_order / is_in_subgroup / to_montgomery_u on
+/// torsion, mixed-order and prime-order points (Edwards curves); to_affine / to_projective /
+/// from_affine / from_projective on results of the group law, rescaled and off-curve triples
+/// (Weierstrass curves).
+fn run_coords<G: GroupApi>(tr: &mut Trace, rng: &mut Rng, plan: &Plan) {
+    let sp = G::special_encodings();
+    let mut m = Mach::<G>::new(tr);
+    let mut ok = m.cst(0, "NEUTRAL") && m.cst(1, "BASE") && m.mulgen(2, &rng.bytes(G::SC_LEN), 0);
+    let to32 = |x: &BigUint| { let mut b = x.to_bytes_le(); b.resize(32, 0); b };
+    let mut k = 0usize;
+    let mut cands: Vec<Option<Vec<u8>>> = sp.iter().map(|e| Some(e.clone())).collect();
+    for _ in 0..plan.scripts.max(2) { cands.push(None); }
+    for c in cands.iter() {
+        if !ok { m = Mach::<G>::new(tr); ok = m.cst(0, "NEUTRAL") && m.cst(1, "BASE") && m.mulgen(2, &rng.bytes(G::SC_LEN), 0); if !ok { return; } }
+        ok = match c { Some(e) => m.decode(3, e), None => m.mulgen(3, &rng.bytes(G::SC_LEN), 1) };
+        // the point itself, its sum with a prime-order point (mixed order when it is a torsion point),
+        // its double, its opposite, P - P
+        ok = ok && m.bin("add", 4, 3, 2, 0) && m.un("double", 5, 3, 0) && m.un("neg", 6, 4, 0) && m.bin("sub", 7, 4, 4, 1)
+            && m.mul_small(8, 4, 8, 0) && m.bin("add", 9, 3, 3, 2);
+        if !ok { continue; }
+        for r in [0usize, 1, 2, 3, 4, 5, 6, 7, 8, 9] {
+            m.structure(r);
+            if let Some((px, py, pz)) = m.coords(r) {
+                let q = G::field_modulus().unwrap();
+                let (bx, by, bz) = (BigUint::from_bytes_le(&px), BigUint::from_bytes_le(&py), BigUint::from_bytes_le(&pz));
+                let lams = [BigUint::from(1u32), BigUint::from(2u32), &q - 1u32, BigUint::from_bytes_le(&rng.bytes(40)) % &q];
+                let lam = &lams[k % 4]; k += 1;
+                let (sx, sy, sz) = ((&bx * lam) % &q, (&by * lam) % &q, (&bz * lam) % &q);
+                ok = m.from_projective(10, &to32(&sx), &to32(&sy), &to32(&sz));
+                if ok { m.equals(10, r); }
+                // non-canonical input bytes (x + q) are reduced
+                ok = ok && m.from_projective(10, &to32(&(&sx + &q)), &to32(&sy), &to32(&sz));
+                // one coordinate off
+                ok = ok && m.from_projective(11, &to32(&((&sx + 1u32) % &q)), &to32(&sy), &to32(&sz));
+                ok = ok && m.from_projective(11, &to32(&sx), &to32(&((&sy + 1u32) % &q)), &to32(&sz));
+                // any (X : Y : 0) is the point at infinity
+                ok = ok && m.from_projective(11, &to32(&sx), &to32(&sy), &to32(&BigUint::from(0u32)));
+                if ok { ok = m.bin("add", 10, 11, 4, 0) && m.bin("add", 10, 4, 11, 1) && m.bin("sub", 10, 4, 11, 2) && m.un("double", 10, 11, 0); m.isneutral(11); m.equals(11, 0); }
+                ok = ok && m.from_projective(11, &to32(&BigUint::from(0u32)), &to32(&sy), &to32(&BigUint::from(0u32)));
+                if ok { ok = m.bin("add", 10, 11, 4, 0) && m.bin("sub", 10, 11, 4, 1); m.isneutral(11); }
+                ok = ok && m.from_projective(11, &to32(&BigUint::from(0u32)), &to32(&BigUint::from(0u32)), &to32(&BigUint::from(0u32)));
+                if ok {
+                    ok = m.bin("add", 10, 11, 4, 0) && m.bin("add", 10, 4, 11, 1) && m.bin("sub", 10, 4, 11, 2) && m.bin("sub", 10, 11, 4, 3)
+                        && m.un("double", 10, 11, 0) && m.un("neg", 10, 11, 0) && m.mul_small(10, 11, 5, 0) && m.bin("add", 10, 11, 11, 0);
+                    m.isneutral(11); m.equals(11, 0); m.equals(11, 4); m.equals(4, 11); m.encode(11);
+                }
+                if bz != BigUint::from(0u32) {
+                    let iz = bz.modpow(&(&q - 2u32), &q);
+                    let (ax, ay) = ((&bx * &iz) % &q, (&by * &iz) % &q);
+                    ok = ok && m.from_affine(10, &to32(&ax), &to32(&ay));
+                    if ok { m.equals(10, r); }
+                    ok = ok && m.from_affine(11, &to32(&ax), &to32(&((&q - &ay) % &q)))
+                        && m.from_affine(11, &to32(&ax), &to32(&((&ay + 1u32) % &q)))
+                        && m.from_affine(11, &to32(&((&ax + 1u32) % &q)), &to32(&ay))
+                        && m.from_affine(11, &to32(&(&ax + &q)), &to32(&ay));
+                }
+                ok = ok && m.from_affine(11, &to32(&BigUint::from(0u32)), &to32(&BigUint::from(0u32)))
+                    && m.from_affine(11, &to32(&BigUint::from(1u32)), &to32(&BigUint::from(0u32)));
+                if !ok { break; }
+            }
+        }
+    }
+}
+
+/// x-only sequences (P-256): runs through the point at infinity, through the points with x = 0,
+/// with Q = infinity, Q of x = 0, P0 or P1 infinity, every n in 0..=plan.len.
+fn run_xseq<G: GroupApi>(tr: &mut Trace, rng: &mut Rng, plan: &Plan) {
+    let sp = G::special_encodings();
+    let nmax = plan.len.max(4);
+    let mut m = Mach::<G>::new(tr);
+    if !(m.cst(0, "NEUTRAL") && m.cst(1, "BASE")) { return; }
+    if G::xseq(G::neutral(), G::neutral(), 0).is_none() { return; }
+    // registers: 2 = Q, 3 = P0, 4 = P1 = P0 + Q, 5 = special point with x = 0 (when there is one)
+    let have_x0 = sp.len() > 1 && m.decode(5, &sp[1]);
+    let mut qs: Vec<Vec<u8>> = vec![vec![1u8], vec![2u8], vec![3u8]];
+    for _ in 0..plan.scripts.max(1) { qs.push(rng.bytes(G::SC_LEN)); }
+    for (qi, qk) in qs.iter().enumerate() {
+        if !m.mulgen(2, qk, 0) { return; }
+        for j in 0..=(nmax + 2) {
+            // P0 = -j*Q: the sequence reaches infinity at index j
+            if !(m.mul_small(6, 2, j as u64, 0) && m.un("neg", 3, 6, 0) && m.bin("add", 4, 3, 2, 0)) { return; }
+            for n in [0usize, 1, 2, j.saturating_sub(1), j, j + 1, nmax] { if n <= nmax + 1 { m.xseq(3, 4, n); } }
+            if have_x0 && qi < 3 {
+                // P0 = X0 - j*Q: the sequence reaches a point with x = 0 at index j
+                if !(m.bin("add", 7, 5, 3, 0) && m.bin("add", 8, 7, 2, 0)) { return; }
+                for n in [0usize, 1, j, j + 1, j + 2, nmax] { if n <= nmax + 2 { m.xseq(7, 8, n); } }
+            }
+        }
+        // Q = infinity; P0 / P1 infinity
+        m.xseq(2, 2, 3); m.xseq(0, 0, 2); m.xseq(0, 2, 4); m.xseq(2, 0, 4);
+        if have_x0 {
+            // Q has x = 0; P0 has x = 0 and Q = -2*P0, ...
+            m.xseq(0, 5, 4); m.xseq(5, 0, 4); m.xseq(5, 5, 2);
+            if m.bin("add", 9, 5, 5, 0) && m.un("neg", 10, 5, 0) { m.xseq(5, 9, 4); m.xseq(10, 5, 4); m.xseq(5, 10, 4); }
+            if m.bin("add", 9, 2, 5, 0) { m.xseq(2, 9, 4); m.xseq(9, 2, 4); }
+        }
+    }
+    // lengths around the internal batch size (the implementation works in batches of 198/200 values)
+    if m.mulgen(2, &rng.bytes(G::SC_LEN), 0) {
+        for j in [0u64, 1, 197, 198, 199, 200, 201, 399, 400] {
+            if !(m.mul_small(6, 2, j, 0) && m.un("neg", 3, 6, 0) && m.bin("add", 4, 3, 2, 0)) { return; }
+            for n in [197usize, 198, 199, 200, 201, 202, 396, 397, 398, 399, 400, 401] {
+                if j == 0 || j == 1 || (n as i64 - j as i64).abs() <= 2 { m.xseq(3, 4, n); }
+            }
+        }
+        if m.mulgen(3, &rng.bytes(G::SC_LEN), 0) && m.bin("add", 4, 3, 2, 0) {
+            for n in [198usize, 199, 200, 201, 396, 397, 398, 399, 400, 401, 402, 599, 600] { m.xseq(3, 4, n); }
+        }
+    }
+    // random pairs
+    for _ in 0..(plan.scripts * 4) {
+        if !(m.mulgen(3, &rng.bytes(G::SC_LEN), 0) && m.mulgen(4, &rng.bytes(G::SC_LEN), 1)) { return; }
+        m.xseq(3, 4, rng.below(nmax + 1));
+    }
+}
+
 pub fn run_type<G: GroupApi>(tr: &mut Trace, rng: &mut Rng, what: &str, plan: &Plan) {
     for w in what.split('+') {
         match w {
@@ -961,6 +1202,8 @@ pub fn run_type<G: GroupApi>(tr: &mut Trace, rng: &mut Rng, what: &str, plan: &P
             "mamv" => run_mamv::<G>(tr, rng, plan),
             "tables" => run_tables::<G>(tr, rng, plan),
             "codec" => run_codec::<G>(tr, rng, plan),
+            "coords" => run_coords::<G>(tr, rng, plan),
+            "xseq" => run_xseq::<G>(tr, rng, plan),
             _ => panic!("unknown group sub-domain {}", w),
         }
     }
